@@ -16,6 +16,7 @@ func init() {
 	vrt.Register("C09_top_level_let", TopLevelLet)
 	vrt.Register("C09_use_in_other_scope", UseInOtherScope)
 	vrt.Register("C09_repeated_use", RepeatedUse)
+	vrt.Register("C09_construct_ended_by_fault", EndedByFault)
 }
 
 func itoa(n int) string { return strconv.Itoa(n) }
@@ -214,5 +215,40 @@ func RepeatedUse() {
 	vrt.Note("got", got)
 	vrt.Assert(err == nil, "repeated use renders")
 	vrt.Assert(got == want, "each use starts from the defining / calling scope: nothing bound in an earlier use is visible")
+	vrt.Cover("done")
+}
+
+// a function scope that ends through a tolerated fault (unknown identifier in the
+// body, call under if / ! / == / &&) is over like any other: parameters and lets
+// are invisible afterwards, the same-named outer variable is unchanged, and a
+// later top-level let still reaches the following tags
+func EndedByFault() {
+	A, B, C := vrt.Int(), vrt.Int(), vrt.Int()
+	vrt.Assume(A != C)
+	vrt.Assume(A != B)
+	ctx := plush.NewContext()
+	ctx.Set("A", A)
+	ctx.Set("B", B)
+	ctx.Set("C", C)
+	sites := []string{
+		"<%= if (f(C)) { %>T<% } %>",
+		"<%= if (!f(C)) { %>F<% } %>",
+		"<%= if (f(C) == 1) { %>T<% } %>",
+		"<%= if (f(C) || false) { %>T<% } %>",
+		"<%= for (i) in [1] { %><%= if (f(C)) { %>T<% } %><% } %>",
+	}
+	k := vrt.Choice(len(sites))
+	site := sites[k]
+	pre := ""
+	if k == 1 {
+		pre = "F"
+	}
+	in := "<% let p = A %><% let f = fn(p) { let q = B\n let p = B\n return missing } %>" + site +
+		"[<%= p %>]" + probeUnset("q") + "<% let r = C %><%= r %>"
+	vrt.Note("input", in)
+	got, err := plush.Render(in, ctx)
+	vrt.Note("got", got)
+	vrt.Assert(err == nil, "the tolerated fault does not fail the render")
+	vrt.Assert(got == pre+"["+itoa(A)+"]U"+itoa(C), "parameters and lets of the ended function are gone and the outer variable is unchanged")
 	vrt.Cover("done")
 }
